@@ -97,15 +97,18 @@ type respClient struct {
 }
 
 type respResult struct {
-	Recs      []PkgRec
-	Out       *simrt.Outcome
-	ConnErr   string
-	SendErr   string
-	Wire      []byte
-	FailedAt  time.Duration // simulated time at which the terminal condition was set
-	TermSet   bool
-	Sim       *simrt.Sim
-	AfterErr  string
+	Recs     []PkgRec
+	Out      *simrt.Outcome
+	ConnErr  string
+	SendErr  string
+	Wire     []byte
+	FailedAt time.Duration // simulated time at which the terminal condition was set
+	TermSet  bool
+	Sim      *simrt.Sim
+	AfterErr string
+	// Changed lists packages whose rendering at the end of the run differs from the one taken when they were
+	// received (a delivered package that aliases a buffer the library goes on using).
+	Changed   []string
 	TwinErr   string
 	TwinPkgs  int
 	Peer      *TDSPeer
@@ -346,6 +349,8 @@ func runResp(cfg simrt.Config, d respDelivery, c respClient) *respResult {
 		}
 		// drain until the consumer's context expires; a connection that keeps producing errors
 		// (a dead transport does) is abandoned after a few of them in a row
+		var kept []tds.Package
+		var keptAt []int
 		consecutiveErrs := 0
 		maxErrs := c.MaxErrs
 		if maxErrs == 0 {
@@ -370,6 +375,13 @@ func runResp(cfg simrt.Config, d respDelivery, c respClient) *respResult {
 				continue
 			}
 			res.Recs = append(res.Recs, recPkg(pkg))
+			kept = append(kept, pkg)
+			keptAt = append(keptAt, len(res.Recs)-1)
+		}
+		for i, pkg := range kept {
+			if d := Dump(pkg); d != res.Recs[keptAt[i]].Dump {
+				res.Changed = append(res.Changed, fmt.Sprintf("package #%d was %s when received and is %s after the rest of the response", i, short(res.Recs[keptAt[i]].Dump, 300), short(d, 300)))
+			}
 		}
 		if c.SendAfter > 0 {
 			simrt.Record("send-after", "", "", int64(c.SendAfter))
